@@ -434,6 +434,46 @@ func (i *instantiator) doExpr(context *instance, expr *Expr) *Expr {
 	return &ret
 }
 
+// remapArgRefs points the ArgRefs of the commands of one rule to the symbols its references got during
+// instantiation (the loader recorded the symbols of the template). The element of a list has a position
+// space of its own. Commands of different instances share their CmdArgs, hence the copy.
+func remapArgRefs(rule *Expr) {
+	syms := make(map[int]int)
+	var cmds []*Expr
+	var visit func(e *Expr)
+	visit = func(e *Expr) {
+		switch e.Kind {
+		case Reference:
+			if e.Pos > 0 {
+				syms[e.Pos] = e.Symbol
+			}
+		case Command:
+			cmds = append(cmds, e)
+		case List:
+			remapArgRefs(e.Sub[0])
+			return
+		}
+		for _, sub := range e.Sub {
+			visit(sub)
+		}
+	}
+	visit(rule)
+	for _, cmd := range cmds {
+		if cmd.CmdArgs == nil || len(cmd.CmdArgs.ArgRefs) == 0 {
+			continue
+		}
+		args := *cmd.CmdArgs
+		args.ArgRefs = make(map[int]ArgRef, len(cmd.CmdArgs.ArgRefs))
+		for pos, ref := range cmd.CmdArgs.ArgRefs {
+			if sym, ok := syms[pos]; ok {
+				ref.Symbol = sym
+			}
+			args.ArgRefs[pos] = ref
+		}
+		cmd.CmdArgs = &args
+	}
+}
+
 func (i *instantiator) suffix(args []boundParam) string {
 	if len(args) == 0 {
 		return ""
@@ -486,6 +526,13 @@ func Instantiate(m *Model) error {
 		curr := inst.instances[i]
 		curr.val = inst.doExpr(curr, m.Nonterms[curr.nonterm].Value)
 		curr.suffix = inst.suffix(curr.args)
+		if curr.val.Kind == Choice {
+			for _, rule := range curr.val.Sub {
+				remapArgRefs(rule)
+			}
+		} else {
+			remapArgRefs(curr.val)
+		}
 	}
 
 	// Sort the instances and move them over into the grammar.
